@@ -1002,6 +1002,10 @@ func generateMore(suite string, seed uint64, i int, r *rng, id string, g gp) *Ca
 		k := []int{2, 4, 8, 16, 32, 64}[r.intn(6)]
 		var runs []Run
 		wide := r.chance(1, 5) // layers wider than 32 nodes: per-call scratch buffers chosen by size
+		big := !wide && r.chance(1, 5) // components of more than 100 nodes: pooled or cached per-call objects chosen by size
+		if big {
+			k = []int{4, 8}[r.intn(2)]
+		}
 		if wide && k > 4 { // under the race detector and GOMAXPROCS=1 these are slow: fewer calls, a generous budget
 			k = 4
 		}
@@ -1021,8 +1025,18 @@ func generateMore(suite string, seed uint64, i int, r *rng, id string, g gp) *Ca
 				}
 				names = usedNames(edges)
 			}
+			if big { // a small random graph with a tail of 100..110 nodes hanging off one of its nodes
+				at := names[r.intn(len(names))]
+				prev := at
+				for t := r.rangeIn(100, 110); t > 0; t-- {
+					nx := "tail" + strconv.Itoa(t)
+					edges = append(edges, []string{prev, nx})
+					prev = nx
+				}
+				names = usedNames(edges)
+			}
 			cfg := genCfg(r, cp{p1: []int{0, 1}, p2: []int{0, 1}, p4: []int{0, 1, 2, 3, 4}, bk: allBK, p5: []int{0, 1, 2, 4}}, names)
-			if wide && cfg.P4 == 3 {
+			if (wide || big) && cfg.P4 == 3 {
 				cfg.P4 = 1
 			}
 			if !wide && r.chance(1, 4) { // the randomised greedy breaker on a cyclic input: whatever it draws from must be per call
@@ -1034,7 +1048,7 @@ func generateMore(suite string, seed uint64, i int, r *rng, id string, g gp) *Ca
 			runs = append(runs, Run{cfg, edges})
 		}
 		tmo := 60000.0
-		if wide {
+		if wide || big {
 			tmo = 300000.0
 		}
 		return &Case{ID: id, Op: "concurrent", Arg: map[string]any{"gomaxprocs": float64([]int{1, 2, 16}[r.intn(3)]), "rounds": 2.0, "timeout_ms": tmo}, Runs: runs}
